@@ -20,7 +20,15 @@
  *   recipient without '@' is allowed; one with domain D (after the last '@') is allowed iff
  *   some entry of the file or key of the cdb equals D, or starts with '.' and D ends with
  *   it, ignoring case; a cdb read error is -1 unless the file already allows D.
- * Files containing NUL are outside (documents silent; memory safety for them: C20 ctl.c). */
+ * Files containing NUL are outside (documents silent; memory safety for them: C20 ctl.c).
+ *
+ * Sizes per query (grid): N bytes of file, R bytes of recipient, AT = position of the
+ * recipient's last '@' (AT = R: none; the grid points AT = 0..R together cover every
+ * recipient of R bytes), CDB = 1 morercpthosts.cdb present / 0 absent or unreadable.  All
+ * other bytes, the open results, the read-error position and the cdb key are symbolic.
+ * Cost: the real constmap over a symbolic file (symbolic entry count, symbolic hash
+ * buckets) is what limits this composition to N <= 4..5, R <= 5; the pieces are checked
+ * at larger sizes by control_readfile_ref, rcpthosts_ref and constmap_lemma. */
 #include "verif.h"
 #include <errno.h>
 #include <stddef.h>
@@ -32,6 +40,12 @@
 #endif
 #ifndef R
 #define R 4
+#endif
+#ifndef AT
+#define AT 1                      /* position of the last '@' in the recipient (grid); AT == R: no '@' at all */
+#endif
+#ifndef CDB
+#define CDB 1                     /* 1: morercpthosts.cdb exists; 0: it does not, or cannot be opened (grid) */
 #endif
 #define MAXE ((N + 1) / 2 + 1)
 #define T_N 1
@@ -67,7 +81,14 @@ int open_read(const char *fn)
 {
   unsigned int mode; int is_rh = strcmp(fn, "control/rcpthosts") == 0;
   if (is_rh) mode = open_mode;
-  else { CHECK(strcmp(fn, "control/morercpthosts.cdb") == 0, "only rcpthosts and morercpthosts.cdb are opened"); mode = cdb_mode; }
+  else {
+    CHECK(strcmp(fn, "control/morercpthosts.cdb") == 0, "only rcpthosts and morercpthosts.cdb are opened");
+#if CDB
+    mode = 0;
+#else
+    mode = cdb_mode == 2 ? 2 : 1;
+#endif
+  }
   if (mode == 1) { errno = ENOENT; return -1; }
   if (mode == 2) { errno = EIO; return -1; }
   return is_rh ? 3 : 5;
@@ -150,8 +171,11 @@ void vmain(void)
 
   sym_inputs();
   ASSUME(open_mode <= 2 && cdb_mode <= 2);
+  ASSUME(CDB ? cdb_mode == 0 : cdb_mode != 0);
   for (i = 0; i < N; ++i) ASSUME(in[i] != 0);
   for (i = 0; i < R; ++i) { ASSUME(buf[i] != 0); orig[i] = buf[i]; }
+  /* the position of the last '@' is concrete per query (grid AT = 0..R covers every recipient of R bytes) */
+  for (i = 0; i < R; ++i) { if (i == AT) ASSUME(buf[i] == '@'); if (i > AT || AT == R) ASSUME(buf[i] != '@'); }
   buf[R] = 0;
   for (k = 0; k < T_N; ++k) E2(k)[T_L] = 0;
   for (i = 0; i < sizeof tab2; ++i) ASSUME(!(tab2[i] >= 'A' && tab2[i] <= 'Z'));   /* qmail-newmrh lower-cases the keys (newmrh_keys) */
